@@ -169,15 +169,19 @@ unsafe impl<T, N: ArrayLength> GenericSequence<T> for Box<GenericArray<T, N>> {
         unsafe {
             use core::{
                 alloc::Layout,
-                mem::{size_of, MaybeUninit},
+                mem::MaybeUninit,
                 ptr,
             };
 
             // Box::new_uninit() is nightly-only
-            let ptr: *mut GenericArray<MaybeUninit<T>, N> = if size_of::<T>() == 0 {
+            let layout = Layout::new::<GenericArray<MaybeUninit<T>, N>>();
+
+            // A zero-sized layout (zero-sized `T` or `N == 0`) must not be passed to the allocator,
+            // and `Box` never deallocates it.
+            let ptr: *mut GenericArray<MaybeUninit<T>, N> = if layout.size() == 0 {
                 ptr::NonNull::dangling().as_ptr()
             } else {
-                alloc::alloc::alloc(Layout::new::<GenericArray<MaybeUninit<T>, N>>()).cast()
+                alloc::alloc::alloc(layout).cast()
             };
 
             let mut builder = IntrusiveArrayBuilder::new(&mut *ptr);
